@@ -109,7 +109,10 @@ def run_impl(sc):
     docs, trace = [], []
     for st in sc["steps"]:
         k = st[0]
-        if k == "do":
+        if k == "ctr":
+            # a maker that has handed out many placeholders already: the next ones straddle the end of the private-use area
+            m.placeholder = st[1]
+        elif k == "do":
             e = build_root(st[1])
             m.do_tree(e)
             docs.append(e)
@@ -170,6 +173,8 @@ def run_impl(sc):
             trace.append(("split", st[1], m.split_string(st[1]), [m.is_placeholder(c) for c in st[1]]))
         elif k == "table":
             trace.append(("table", table_of(m), m.placeholder, t2p_of(m)))
+        if k == "ctr":
+            trace.append(("ctr", st[1], None))
     return m, docs, trace
 
 
@@ -210,7 +215,7 @@ def oracle(sc):
         m, docs, trace = run_impl(sc)
     except Exception as ex:  # noqa
         return "implementation raised %s: %s" % (type(ex).__name__, ex)
-    why = oracle_tables(m)
+    why = oracle_tables(m) if sc["kind"] != "latectr" else None
     if why:
         return why
     if sc.get("oracle") == "roundtrip":
@@ -355,6 +360,13 @@ def gen_scenarios(run, rng):
     scs += exhaustive(4 if quick else 5, ["p", "b", "x"], variants if not quick else variants[:3])
     nexh = len(scs)
     nA, nB, nC, nD, nS = (500, 300, 300, 300, 200) if quick else (4000, 2500, 2500, 2500, 1500)
+    # (L) a maker in long use: its counter stands just below U+F8FF, so this document's placeholders lie at the end of and
+    # beyond the private-use area (what > 6393 distinct inline elements reach); round trip only, outside the model
+    for _ in range(nA // 8):
+        t = gen_tree(rng, rng.randint(2, 4), root=True)
+        tt, fmt = tagsets_for(rng, t)
+        scs.append({"kind": "latectr", "tt": tt, "fmt": fmt, "oracle": "roundtrip",
+                    "steps": [["ctr", rng.choice([0xF8F6, 0xF8FA, 0xF8FD, 0xF8FF])], ["do", t], ["undo", 0]]})
     # (A) one document, fresh maker
     for _ in range(nA):
         t = gen_tree(rng, rng.randint(1, 4), root=True, cpi=rng.choice([0.0, 0.0, 0.25]))
@@ -738,6 +750,8 @@ def coq_case(sc, trace):
 def modelable(trace):
     """Exceptions other than the four modelled kinds (e.g. chr() out of range) are outside the model."""
     for tr in trace:
+        if tr[0] == "ctr":
+            return False
         r = tr[2] if tr[0] in ("op", "undo") else None
         if r and r[0] == "err" and r[1].startswith("other:"):
             return False
